@@ -40,7 +40,7 @@ class Builder:
         return len(self.exprs)
 
     def fn(self, name, params, parent):
-        self.fns.append(dict(name=name, params=list(params), body=[], parent=parent, nonlocals=[], globals=[]))
+        self.fns.append(dict(name=name, params=list(params), body=[], parent=parent, nonlocals=[], globals=[], kwonly=0))
         return len(self.fns)
 
     # convenience constructors -------------------------------------------------
@@ -315,6 +315,7 @@ class Contexts:
         if r.random() < 0.3:
             f['params'].append('r')
             d['e'] = self.simple(b, scope)
+            f['kwonly'] = 1 if r.random() < 0.4 else 0
 
 
 def initial_assignments(b, rnd, names, prob, cx=None, objects=False, lists=False):
@@ -482,6 +483,8 @@ class RandomGen:
                 hs.append(dict(cls=c, name=self.r.choice(['', '', 'ex', self.r.choice(self.names)]) if self.hnames else '',
                                body=self.block(fn, scope + ['ex'] if self.hnames else scope, depth + 1, inloop, infinally)))
             N[i - 1]['handlers'] = hs
+            if hs and self.contexts and self.r.random() < 0.25:      # try / except / else
+                N[i - 1]['orelse'] = self.block(fn, scope, depth + 1, inloop, infinally)
             if not hs or self.r.random() < 0.5:
                 N[i - 1]['final'] = self.block(fn, scope, depth + 1, False, True)
             return i
@@ -662,6 +665,9 @@ def r_stmt(p, n, ind, out):
         for h in d['handlers']:
             out.append((0, s + 'except E%d%s:' % (h['cls'], (' as ' + h['name']) if h.get('name') else '')))
             r_block(p, h['body'], ind + 1, out)
+        if d['orelse']:
+            out.append((0, s + 'else:'))
+            r_block(p, d['orelse'], ind + 1, out)
         if d['final']:
             out.append((0, s + 'finally:'))
             r_block(p, d['final'], ind + 1, out)
@@ -685,12 +691,18 @@ def r_stmt(p, n, ind, out):
         params = list(f['params'])
         if d['e']:      # the last parameter has a default value (evaluated when the def statement executes)
             params[-1] = '%s=%s' % (params[-1], r_expr(p, d['e']))
+            if f.get('kwonly'):     # ... and is keyword-only: def g(p, *, r=E)
+                params.insert(len(params) - 1, '*')
         emit('def %s(%s):' % (f['name'], ', '.join(params)))
         if f['nonlocals']:
             out.append((0, s + '    nonlocal ' + ', '.join(f['nonlocals'])))
         r_block(p, f['body'], ind + 1, out)
     elif k == 'call':
-        c = '%s(%s)' % (d['name'], ', '.join(d['args']))
+        args = list(d['args'])
+        callee = [g for g in p['fns'] if g['name'] == d['name']]
+        if callee and callee[0].get('kwonly') and len(args) == len(callee[0]['params']):
+            args[-1] = '%s=%s' % (callee[0]['params'][-1], args[-1])
+        c = '%s(%s)' % (d['name'], ', '.join(args))
         if d['form'] == 'assign':
             emit('%s = %s' % (d['tgt'][0], c))
         elif d['form'] == 'return':
